@@ -29,8 +29,10 @@ type ShutdownParams struct {
 	// APIInfo: the membership numbering is supplied through the API's membership-info endpoint (which publishes it
 	// on the bus) one second after start-up: the client is ready long before the membership's own start-up delay
 	// has passed
-	APIInfo   bool `json:"api_info"`
-	OldServer bool `json:"old_server"`
+	APIInfo bool `json:"api_info"`
+	// MetaBucket: the checkpoints live in a second bucket on the same hosts (a separate agent of the client)
+	MetaBucket bool `json:"meta_bucket"`
+	OldServer  bool `json:"old_server"`
 }
 
 func init() {
@@ -89,6 +91,8 @@ func init() {
 			add(ShutdownParams{Case: "notifyduringclose", Checkpoint: "auto", Membership: "dynamic", MaxPoint: 120}, 4)
 			out = append(out, Instance{Scenario: "c07_gate", Params: mustJSON(MitigationParams{Replicas: 1, CloseAt: true}), Bound: 0, Shards: 8, Note: "the stream is closed while an event waits at the rollback-mitigation gate (every feed combination): it is released, never handed to the consumer, nothing after Close() has returned"})
 			out = append(out, Instance{Scenario: "c16_race", Params: mustJSON(ScrapeRaceParams{Against: "close", Inject: true}), Bound: 0, Shards: 4, Note: "a metrics scrape (prometheus runs Collect on its own goroutine) at every scheduling point of the stream's Close(): no crash"})
+			add(ShutdownParams{Case: "idle", Checkpoint: "auto", Membership: "static", MaxPoint: 1, MetaBucket: true}, 1)
+			add(ShutdownParams{Case: "deliver", Checkpoint: "auto", Membership: "static", MaxPoint: 60, MetaBucket: true}, 4)
 			add(ShutdownParams{Case: "idle", Checkpoint: "auto", Membership: "couchbase", MaxPoint: 1}, 1)
 			add(ShutdownParams{Case: "deliver", Checkpoint: "auto", Membership: "couchbase", MaxPoint: 60}, 4)
 			return out
@@ -210,6 +214,9 @@ func shutdownMain(p ShutdownParams) {
 	}
 	o.Vbs = 2
 	o.Replicas = 0
+	if p.MetaBucket {
+		o.MetaBucket = "meta"
+	}
 	o.CheckpointType = p.Checkpoint
 	o.Mitigation = p.Mitigation
 	o.MembershipType = p.Membership
@@ -578,6 +585,10 @@ func shutdownMain(p ShutdownParams) {
 		if c.StreamOpen(vb) {
 			vrt.Failf("%s: the stream of vb%d was never closed", desc, vb)
 		}
+	}
+	// every connection of the client (source agent, metadata agent, DCP agent) has been closed
+	if open := c.OpenAgents(); len(open) > 0 {
+		vrt.Failf("%s: connections of the client are still open after Close() returned: %v", desc, open)
 	}
 	if closeStreamOrder > 0 {
 		for _, r := range c.RequestsOf("openstream") {
